@@ -53,8 +53,31 @@ def plan(tier: str, seed: int) -> list[dict[str, Any]]:
     n = common.NCPU // 2 * (1 if tier == "quick" else 3)
     a = common.split_even(progs, n)
     b = common.split_even(dist, n)
+    a[0] = directed() + a[0]
     return [{"cases": a[i] + b[i], "idx": i, "nprocs": N_PROCS[tier],
              "hashseeds": [0, 1, 2, 3, 97, 12345][:N_PROCS[tier]]} for i in range(n)]
+
+
+def directed() -> list[dict[str, Any]]:
+    """Programs with ties the text leaves open: several outputs that are sub-expressions of
+    another output (order of stores / arguments), many same-level bindings, several wrapped
+    arrays, outputs whose names sort differently from their creation order."""
+    from vf.gen import progspec as ps
+    out = []
+    for j, names in enumerate((["alpha", "beta", "delta", "gamma"], ["z", "y", "x", "w"],
+                               ["out10", "out9", "out1", "out2"])):
+        inputs = [{"id": i, "kind": "ph" if i < 2 else "dw", "shape": [3], "dtype": "float64",
+                   "pool": "dyadic", "name": f"x{i}"} for i in range(4)]
+        nodes = [{"id": 4, "op": "mul", "args": [0, ps.enc_scalar(2.0)], "params": {}},
+                 {"id": 5, "op": "add", "args": [1, 2], "params": {}},
+                 {"id": 6, "op": "sub", "args": [3, 0], "params": {}},
+                 {"id": 7, "op": "mul", "args": [5, 6], "params": {}},
+                 {"id": 8, "op": "add", "args": [4, 7], "params": {}}]
+        spec = {"inputs": inputs, "nodes": nodes,
+                "outputs": {names[0]: 4, names[1]: 5, names[2]: 6, names[3]: 8},
+                "vseed": 7700 + j, "profile": "directed"}
+        out.append({"kind": "prog", "spec": spec})
+    return out
 
 
 # ------------------------------------------------------------------ child
